@@ -69,8 +69,14 @@ def r17_1(run, model):
                 run.ob("R17.1", f"{name}|{nparts} '#'-separated parts", len(parts) == nparts, site(NAMES, m_["sp"]), f"template {lit.group(1)!r}")
     rd = model.fn("parse_inherent_method_fn_name", NAMES)
     t = S.norm_ws(run.facts.text(NAMES, rd.body["sp"]))
-    nexts = t.count("parts.next()")
-    ok = "name.split('#')" in t and nexts == 5 and '"inherent"' in t
+    # the iterator over the '#'-separated parts, whatever it is called: bound from `<x>.split('#')`, asked `.next()` once per part and once
+    # more for the end
+    it = None
+    for l in S.find(rd.body, "Local"):
+        if l.get("init") is not None and re.search(r"\.split\('#'\)$", S.norm_ws(run.facts.text(NAMES, l["init"]["sp"]))) and S.pat_bindings(l["pat"]):
+            it = S.pat_bindings(l["pat"])[0]
+    nexts = t.count(f"{it}.next()") if it else 0
+    ok = it is not None and nexts == 5 and '"inherent"' in t
     run.ob("R17.1", "parse_inherent_method_fn_name|agrees with the constructor", ok, site(NAMES, rd.node["sp"]), f"splits on '#', reads {nexts - 1} parts and requires the end")
     # call-site roles
     n = 0
